@@ -128,6 +128,38 @@ def cascade(F, R):
             if ok and not all(s == want_seq for s in seqs):
                 ok = False
                 R.find('C09.entry', f, 'entry-variant-kind', 'the %s entry variant runs %s, required %s (own entry, explicit ids, start of the substates%s)' % ('entry-point' if want_seq[-1] == 'P' else 'fork' if 'F' in want_seq else 'explicit' if 'W' in want_seq else 'plain', seqs, want_seq, ', then process_event of the same event' if want_seq[-1] == 'P' else ''))
+            # a fork stores each named substate in the region THAT STATE belongs to: the functor applied to the target list writes
+            # the active-state array with a per-state constant index (C09.region checks its value), never by position in the list
+            if want_seq == ['E', 'F', 'S']:
+                from rules_order import dependency_closure
+                for i2, n2 in f.calls():
+                    if n2.get('n') != 'for_each': continue
+                    for a2 in n2.get('args', []):
+                        for d2 in dependency_closure(f, a2):
+                            x2 = f.nodes[d2]
+                            if not (x2 and x2['k'] == 'ctor' and 'pt' in x2): continue
+                            for g in F.funcs:
+                                if g.n != 'operator()' or not g.blocks or F.class_type(g) != F.strs[x2['pt']]: continue
+                                for m2 in g.nodes:
+                                    if m2 and m2['k'] == 'asg':
+                                        l2 = g.nodes[m2['lhs']]
+                                        while l2 and l2['k'] in ('icast', 'cast', 'paren'): l2 = g.nodes[l2['e']]
+                                        if l2 and l2['k'] == 'sub' and const_of(g, l2['i']) is None:
+                                            ok = False
+                                            R.find('C09.entry', f, 'fork-by-position', 'the fork entry stores its targets through %s, which writes slot %s (a running position, not the region of the state): targets listed out of region order, or a fork naming a subset of the regions, activate states in the wrong regions' % (x2.get('pc'), g.expr(l2['i'])), where=f.at(i2))
+                                            break
+            # the submachine's own entry behaviour receives the event that triggered the transition, not the library's
+            # direct_entry_event wrapper (its substates and the other back-end already do)
+            if want_seq != ['E', 'S']:
+                for i3, n3 in f.calls():
+                    if leaf_class(F, n3) == 'ENTRY' and n3.get('args'):
+                        a3 = f.nodes[n3['args'][0]]
+                        while a3 and a3['k'] in ('icast', 'cast', 'paren'): a3 = f.nodes[a3['e']]
+                        own_ok = bool(a3) and a3['k'] == 'mem' and a3['n'] == 'm_event'
+                        R.ob('C09.entry', own_ok, {'func': f.q, 'own_entry_argument': f.expr(n3['args'][0])})
+                        if not own_ok:
+                            ok = False
+                            R.find('C09.entry', f, 'own-entry-wrapped', 'the submachine\'s own on_entry is called with %s (the direct_entry_event wrapper) instead of the triggering event evt.m_event: a templated on_entry sees a library-internal event type' % f.expr(n3['args'][0]), where=f.at(i3))
             # the substates are started with the unwrapped event, the entry point re-submits the same event
             unwrapped = True
             for i, n in f.calls():
@@ -1863,3 +1895,57 @@ def rowwrap(F, R):
         R.ob('C14.wrap', ok, {'func': f.q, 'passes': got})
         if not ok:
             R.find('C14.wrap', f, 'args', '%s::%s must invoke the behaviour once with (event, fsm, source, target) = (%s); found %s' % (f.cls, f.n, ', '.join([pn[1], pn[0], pn[2], pn[3]]), got))
+
+
+@rule('rowregion')
+def rowregion(F, R):
+    """C06.row-region: an executor works on the region it was called for: every access of the active-state array in a row executor
+    (external, internal, forwarding, chain) is indexed by its region parameter."""
+    for f in F.funcs:
+        be = backend_of(f)
+        if be is None or not f.blocks or f.n != 'execute' or not f.d.get('static'): continue
+        if f.cls not in ('row_', 'a_row_', 'g_row_', '_row_', 'frow', 'irow_', 'a_irow_', 'g_irow_', '_irow_', 'internal_', 'a_internal_', 'g_internal_', '_internal_', 'transition', 'internal_transition', 'forward_transition'): continue
+        pn = [p['n'] for p in f.d.get('params', [])]
+        if len(pn) < 2: continue
+        region_param = pn[1]
+        acc = []
+        for i, n in enumerate(f.nodes):
+            if n and (n['k'] == 'sub' or (n['k'] == 'call' and n.get('op') == '[]')):
+                ai = active_index(f, i)
+                if ai: acc.append((i, ai))
+        if not acc: continue
+        R.seen(f); R.anchor('row-region:%s:%s' % (be, f.cls))
+        bad = None
+        for i, (ix, add) in acc:
+            x = f.nodes[ix]
+            while x and x['k'] in ('icast', 'cast', 'paren'): x = f.nodes[x['e']]
+            if not (x and x['k'] == 'ref' and x.get('dk') == 'param' and x['n'] == region_param and add == 0): bad = i
+        R.ob('C06.row-region', bad is None, {'func': f.q, 'accesses': len(acc)})
+        if bad is not None:
+            R.find('C06.row-region', f, 'index', '%s::execute accesses the active-state array with %s instead of its region parameter %s: a machine with several regions has another region\'s state overwritten' % (f.cls, f.expr(bad), region_param), where=f.at(bad))
+
+@rule('entrycount')
+def entrycount(F, R):
+    """C10.region-count (backmp11): state_entry_visitor numbers the regions by counting its own invocations and hands that number to the
+    completion transition of the entered state.  The count is the region index only when the visitor is driven region by region, i.e. by
+    the active-state visit of state_visitor.hpp; any other driver (an iteration over a list of target states, which may be written in any
+    order) gives entered states the wrong region."""
+    for f in F.funcs:
+        if backend_of(f) != 'backmp11' or not f.blocks: continue
+        for i, n in f.calls():
+            if n.get('op') == '()' and n.get('pc') == 'state_entry_visitor':
+                R.seen(f); R.anchor('entry-visitor-driver')
+                ok = f.file.endswith('state_visitor.hpp')
+                if not ok and f.file.endswith('history_impl.hpp'):
+                    # the initial-state list of a machine is region ordered by construction: iterating InitialStateIds is a region-order driver
+                    ctx = f.d['ctx']
+                    outer = [g for g in F.funcs if g.blocks and any(m and m['k'] == 'lambda' and m.get('lck') == ctx[-1].get('lck') for m in g.nodes)] if 'lck' in ctx[-1] else []
+                    for g in outer:
+                        ia = g.cls_args('history_impl') or []
+                        for j, m in g.calls():
+                            if m.get('n') == 'mp_for_each' and m.get('ta') and ia:
+                                t0 = m['ta'][0]
+                                if isinstance(t0, dict) and 't' in t0 and strip_cvref(F.strs[t0['t']]) == strip_cvref(str(ia[-1])): ok = True
+                R.ob('C10.region-count', ok, {'driver': f.q})
+                if not ok:
+                    R.find('C10.region-count', f, 'driver', 'the region-counting entry visitor is invoked from %s, which iterates a list of target states in the order they were written, not the regions in order: for targets listed out of region order the completion transition of an entered state is scheduled for another region (active ids of two regions get mixed up)' % f.q.split('::')[-3] if f.q.count('::') > 2 else f.q, where=f.at(i))
